@@ -815,7 +815,7 @@ class _Run(object):
             call = lambda: srv.sendrawtransaction(U.txs[a['tx']]['raw'])
         elif m == 'getblock':
             call = lambda: srv.getblock(U.block['block_hash'] if a.get('byhash') else U.block['height'],
-                                        bool(a.get('parse')), 1, a.get('limit', 10))
+                                        bool(a.get('parse')), a.get('page', 1), a.get('limit', 10))
         elif m == 'getrawblock':
             call = lambda: srv.getrawblock(U.block['height'])
         elif m == 'mempool':
@@ -1085,7 +1085,7 @@ class _Run(object):
                 self.m_tx.add(U.by_txid[t.txid])
         elif m == 'getblock':
             if a.get('parse') and e['beh'] == 'ok':
-                self.m_tx.update(U.block_txs[:a.get('limit', 10)])
+                self.m_tx.update(U.block_txs[(a.get('page', 1) - 1) * a.get('limit', 10):a.get('page', 1) * a.get('limit', 10)])
             self.m_blk = True
 
     def bookkeeping(self, m, rnd, matched):
@@ -1402,7 +1402,8 @@ class _Run(object):
                           (what, _short(v)))
                 return
             got = [U.by_txid.get(t.txid if a.get('parse') else t) for t in txs]
-            want_txs = U.block_txs[:a.get('limit', 10)]           # first page of the requested size
+            pg, lm = a.get('page', 1), a.get('limit', 10)
+            want_txs = U.block_txs[(pg - 1) * lm:pg * lm]           # the requested page
             if got != want_txs:
                 self.disc('cache.getblock.tx-differs', '%s: cached block lists transactions %r, the first page of '
                           'the stored block is %r' % (what, got, want_txs),
@@ -1595,6 +1596,14 @@ def cache_scenarios(ctx):
                             [q('getutxos', addr=addr, after=-1, limit=20)]))
                 out.append((['gettransaction'], [q('gettransaction', tx=tx)] + mid(0, False, reopen) +
                             [q('getbalance', addrs=[addr]), q('gettransactions', addr=addr, after=-1, limit=20)]))
+    # a block read page by page (in the universes whose block holds two transactions), then the first page again
+    for parse in tf:
+        for reopen in tf:
+            p1 = q('getblock', parse=parse, byhash=False, limit=1, page=1)
+            p2 = q('getblock', parse=parse, byhash=False, limit=1, page=2)
+            out.append((['getblock'], [p1, p2] + mid(0, False, reopen) + [dict(p1), dict(p2)]))
+            out.append((['getblock'], [q('getblock', parse=parse, byhash=False, limit=10, page=1)] +
+                        mid(0, False, reopen) + [dict(p1), dict(p2)]))
     # a history read in limited steps, then without limit
     for addr in (0, 1):
         for l1, l2 in ((1, 2), (1, 3), (2, 3), (2, 4), (1, 20), (2, 20)):
